@@ -101,6 +101,12 @@ fn depth1(leaves: &[&str]) -> Vec<String> {
         v.push(format!("if l then 1 elseif g then {} else 3", a));
         v.push(format!("if l then 1 elseif g then 2 else {}", a));
         v.push(format!("if l then 1 elseif g then 2 elseif {} then 3 else 4", a));
+        // ... and an unknown condition that is false when it runs (the loud value is truthy)
+        v.push(format!("if not g then 1 elseif {} then 2 else 3", a));
+        v.push(format!("if not g then 1 else {}", a));
+        v.push(format!("if not g then 1 elseif not g then 2 elseif {} then 3 else 4", a));
+        v.push(format!("if not g then 1 elseif not g then 2 else {}", a));
+        v.push(format!("if not g then {} elseif g then 2 else 3", a));
     }
     v
 }
